@@ -1257,6 +1257,50 @@ def nf_leaves(t, conds=()):
     return [(t, conds)]
 
 
+def lift_ifs(t, limit=64):
+    """Case split of a pure normal form: every `if` / `match` nested anywhere in it (closures excluded) is lifted to the top.
+    Returns [(conds, term without if/match)] with conds a tuple of (condition, polarity) / (("matches", scrutinee, pattern), True).
+    Path enumeration of an expression - more than `limit` cases raises ValueError."""
+    def go(t):
+        if not isinstance(t, tuple) or not t:
+            return [((), t)]
+        h = t[0]
+        if h == "closure":
+            return [((), t)]
+        if h == "if":
+            out = []
+            for cc, c in go(t[1]):
+                for ca, a in go(t[2]):
+                    out.append((cc + ((c, True),) + ca, a))
+                for cb, b in go(t[3]):
+                    out.append((cc + ((c, False),) + cb, b))
+            return out
+        if h == "match":
+            out = []
+            for cs, sc in go(t[1]):
+                for pk_, g, body in t[2]:
+                    extra = ((("matches", sc, pk_), True),) + (((g, True),) if g is not None else ())
+                    for cb, b in go(body):
+                        out.append((cs + extra + cb, b))
+            return out
+        # product over children
+        parts = [[((), h)]] if not isinstance(h, tuple) else [go(h)]
+        combos = [((), ())]
+        items = t if isinstance(h, tuple) else t[1:]
+        head = () if isinstance(h, tuple) else (h,)
+        for x in items:
+            alts = go(x) if isinstance(x, tuple) else [((), x)]
+            new = []
+            for cc, acc in combos:
+                for ca, a in alts:
+                    new.append((cc + ca, acc + (a,)))
+            combos = new
+            if len(combos) > limit:
+                raise ValueError("too many cases")
+        return [(cc, head + acc) for cc, acc in combos]
+    return go(t)
+
+
 def subterms(t):
     """Every nested tuple of a normal form (terms, argument tuples, arm tuples...)."""
     if isinstance(t, tuple):
